@@ -18,8 +18,10 @@
                                        -> [Rank64(r, IndexRank64(r, tr), i); Rank128(r, IndexRank128(r), i);
                                            NextOne(r, i, e); PrevOne(r, i, e)]
     [bitmap.Builder/query] [n; ops; tr; i; e]  the same four queries on Words after the history
-    [bitmap.Of/any]     [ps; opt]      ANY int32 list (unsorted, negative, ...)   -> words or P
-    [bitmap.OfMany/any] [subs; sizes]  equal lengths, anything else arbitrary     -> words or P *)
+    [bitmap.OfMany/asOf] [subs; sizes] equal lengths; positions >= size allowed in ANY segment (the shifted concatenation
+                                       need not be ascending, Of may panic)  -> [1] if OfMany(subs, sizes) and
+                                       Of(shifted concatenation, sum of sizes) agree (same words, or both panic), else [0; a; b].
+                                       Only the RELATION is observed, so Of's behaviour outside its own domain is not pinned. *)
 From Coq Require Import ZArith List Bool String.
 From Low Require Import Lib.Bits Lib.BitSeq Lib.Val Model.BuilderOps Model.BitmapOf Spec.OfSpec
   Model.BitmapMask Spec.MaskSpec Model.BitmapFmt Spec.FmtSpec
@@ -250,37 +252,27 @@ Definition ops_C12_query : list opdef := [
        | _ => VBad end) |}
 ].
 
-(** * widening: Of / OfMany on every input *)
-Definition as_owords (v : val) : option (option (list Z)) :=
-  match v with
-  | VPanic => Some None
-  | _ => match as_zs v with Some r => Some (Some r) | None => None end
+(** * widening: OfMany is Of on the shifted concatenation, whatever Of does with it *)
+Definition owords_eqb (a b : option (list Z)) : bool :=
+  match a, b with
+  | Some x, Some y => zs_eqb x y
+  | None, None => true
+  | _, _ => false
   end.
 
 Definition ops_C12_any : list opdef := [
-  {| op_name := "bitmap.Of/any";
-     op_run := fun a => match a with
-       | [ps; opt] => match as_zs ps, as_opt opt with
-           | Some ps, Some opt => vwords (Of ps opt)
-           | _, _ => VBad end
-       | _ => VBad end;
-     op_spec := fun a obs => match a with
-       | [ps; opt] => match as_zs ps, as_opt opt, as_owords obs with
-           | Some ps, Some opt, Some o => spec_Of_any_ok ps opt o
-           | _, _, _ => false end
-       | _ => false end |};
-  {| op_name := "bitmap.OfMany/any";
+  {| op_name := "bitmap.OfMany/asOf";
      op_run := fun a => match a with
        | [subs; sizes] => match as_zss subs, as_zs sizes with
            | Some subs, Some sizes =>
-               if (List.length subs =? List.length sizes)%nat then vwords (OfMany subs sizes) else VBad
+               if (List.length subs =? List.length sizes)%nat then
+                 let x := OfMany subs sizes in
+                 let y := Of (shifted subs sizes 0) (Some (total sizes)) in
+                 if owords_eqb x y then VL [VZ 1] else VL [VZ 0; vwords x; vwords y]
+               else VBad
            | _, _ => VBad end
        | _ => VBad end;
-     op_spec := fun a obs => match a with
-       | [subs; sizes] => match as_zss subs, as_zs sizes, as_owords obs with
-           | Some subs, Some sizes, Some o => spec_Of_any_ok (shifted subs sizes 0) (Some (total sizes)) o
-           | _, _, _ => false end
-       | _ => false end |}
+     op_spec := fun_spec (fun _ => VL [VZ 1]) |}
 ].
 
 Definition ops_C12 : list opdef := ops_C12_core ++ ops_C12_wide ++ ops_C12_query ++ ops_C12_any.
